@@ -361,6 +361,132 @@ func C05(c *core.Ctx) {
 			}
 		}
 	}
+	// ---- R5.8 updates act on the entry of exactly the named prefix: the entry whose next
+	// hops or strategy a FIB method overwrites comes from the exact-match search (or from
+	// the node-creating fill), never from the longest-prefix search used by lookups
+	nUpd := 0
+	sl58 := &core.Slicer{P: p}
+	for _, fn := range p.FuncsIn(core.ModPath + "/fw/table") {
+		if fn.Signature.Recv() == nil || !strings.Contains(fn.Signature.Recv().Type().String(), "FibStrategyTree") || strings.HasSuffix(p.File(fn.Pos()), "_test.go") {
+			continue
+		}
+		core.Instrs(fn, func(in ssa.Instruction) {
+			fa, _, ok := storeToField(in, "baseFibStrategyEntry", "nexthops")
+			if !ok {
+				fa, _, ok = storeToField(in, "baseFibStrategyEntry", "strategy")
+			}
+			if !ok || isFreshObject(fa.X) {
+				return
+			}
+			nUpd++
+			bad := ""
+			base := fa.X
+			for {
+				if f2, ok := core.Strip(base).(*ssa.FieldAddr); ok {
+					base = f2.X
+					continue
+				}
+				break
+			}
+			for _, l := range sl58.Leaves(base) {
+				cl, isCall := l.Val.(*ssa.Call)
+				if !isCall {
+					if l.Kind == "alloc" || l.Kind == "make" {
+						continue
+					}
+					bad = l.Desc()
+					continue
+				}
+				id, _ := core.Callee(&cl.Call)
+				switch id.Name {
+				case "findExactMatchEntryEnc", "fillTreeToPrefixEnc":
+				default:
+					bad = l.Desc()
+				}
+			}
+			c.Decide(bad == "", "R5.8", fmt.Sprintf("update-targets-exact-entry:%s#%d", core.FuncName(fn), nUpd), c.Pos(in), "the updated entry comes from the exact-match search or the fill", core.FuncName(fn)+" overwrites the next hops / strategy of an entry obtained from "+bad+": an update for a prefix that has no node of its own changes its nearest ancestor instead (e.g. unsetting an unknown prefix strips the strategy of a shorter one)")
+		})
+	}
+	c.Floor("R5.8", "entry updates in the tree FIB", nUpd, 5)
+
+	// ---- R5.7 hash-table FIB: virtualDetails.md (the depth from which lookups under a
+	// virtual prefix start probing) never under-estimates: it is set to len(name) on a
+	// fresh entry, or raised by max(md, x) — and when it is recomputed in a loop over the
+	// names under the virtual prefix, every name takes part (no filter)
+	nMd := 0
+	for _, fn := range p.FuncsIn(core.ModPath + "/fw/table") {
+		if strings.HasSuffix(p.File(fn.Pos()), "_test.go") {
+			continue
+		}
+		core.Instrs(fn, func(in ssa.Instruction) {
+			fa, v, ok := storeToField(in, "virtualDetails", "md")
+			if !ok {
+				return
+			}
+			nMd++
+			fname := core.FuncName(fn)
+			c.Funcs[fname] = true
+			isMaxOf := func(x ssa.Value, acc func(ssa.Value) bool) bool {
+				cl, ok := core.Strip(x).(*ssa.Call)
+				if !ok {
+					return false
+				}
+				b, ok := cl.Call.Value.(*ssa.Builtin)
+				if !ok || b.Name() != "max" {
+					return false
+				}
+				for _, a := range cl.Call.Args {
+					if acc(a) {
+						return true
+					}
+				}
+				return false
+			}
+			isOwnMd := func(a ssa.Value) bool {
+				u, ok := core.Strip(a).(*ssa.UnOp)
+				if !ok {
+					return false
+				}
+				fa2, ok := u.X.(*ssa.FieldAddr)
+				return ok && fa2.Field == fa.Field && core.Same(fa2.X, fa.X)
+			}
+			good, why := false, "the stored value is neither len(name) on a fresh entry nor max(md, …)"
+			switch {
+			case isFreshObject(fa.X):
+				_, good = core.LenOf(v)
+				if k, isC := core.ConstInt(v); isC && k >= 0 {
+					good = true
+				}
+			case isMaxOf(v, isOwnMd):
+				good = true
+				if h := loopHeader(in.Block()); h != nil && !everyIterationPasses(fn, h, func(x ssa.Instruction) bool { return x == in }) {
+					good, why = false, "the max() accumulation skips some of the names (it is conditional inside the loop)"
+				}
+			default:
+				// local accumulator: a loop-header phi whose back-edge value is max(phi, x)
+				if ph, ok := core.Strip(v).(*ssa.Phi); ok {
+					h := ph.Block()
+					good = true
+					nBack := 0
+					for i, e := range ph.Edges {
+						if !h.Dominates(h.Preds[i]) {
+							continue // entry edge
+						}
+						nBack++
+						if !isMaxOf(e, func(a ssa.Value) bool { return core.Strip(a) == ssa.Value(ph) }) {
+							good, why = false, "the recomputation skips some of the names (the max() accumulation is conditional)"
+						}
+					}
+					if nBack == 0 {
+						good = false
+					}
+				}
+			}
+			c.Decide(good, "R5.7", fmt.Sprintf("md-never-underestimates:%s#%d", fname, nMd), c.Pos(in), "md is len(name) of a fresh entry or raised by max over every name", fname+" can set a virtual entry's md below the length of a real prefix stored under it ("+why+"): lookups start probing below that prefix and miss it — a shorter prefix (or nothing) is returned instead of the longest match")
+		})
+	}
+	c.Floor("R5.7", "stores to virtualDetails.md", nMd, 4)
+
 	// ---- R5.1b every caller of UnSetStrategyEnc rejects the empty (root) name first:
 	// this is the guard that protects the root strategy today.
 	nUnset := 0
